@@ -89,8 +89,8 @@ fn spec_for(prop: &str, tier: &str, seed: u64) -> RunSpec {
             }
         }
         "C16" => {
-            s.rule = "one server::solve_instance call per generated instance (maintenance/depot heavy), hook H2 records the schedules bound after each stage and the optimiser's transitions, hook H1 the search steps; trace checker: start = depot-improved flow solution, search result = end of the step chain, optimised schedule carries T*, final schedule has the search result's activities, T* as cycles (as multisets of cyclic sequences) and end depots following T*, the JSON is the final schedule with T* as vehicleCycles and a truthful objective. non-trivial = distinct instances where the optimiser's cycles differ from the search result's (otherwise a dropped stage is unobservable)".to_string();
-            s.cases = if thorough { 10000 } else { 1500 };
+            s.rule = "one server::solve_instance call per generated instance (maintenance/depot heavy), hook H2 records the schedules bound after each stage and the optimiser's transitions, hook H1 the search steps; trace checker: start = depot-improved flow solution, search result = end of the step chain, optimised schedule carries T*, final schedule has the search result's activities, T* as cycles (as multisets of cyclic sequences) and end depots following T*, the JSON is the final schedule with T* as vehicleCycles and a truthful objective; the cycles the answer carries are a fixpoint of a re-run of the real optimiser; hand-over probe: the search result is handed cycles rearranged by 1-4 random move_vehicle steps per type through Schedule::set_next_day_transitions and must carry exactly them and the sum of their violations (counters handover_probes, handover_probe_types_rearranged, handover_probe_types_with_larger_counter_than_before). non-trivial = distinct instances where the optimiser's cycles differ from the search result's (otherwise a dropped stage is unobservable)".to_string();
+            s.cases = if thorough { 20000 } else { 4000 };
             s.cpu_budget_s = 60.0;
             s.min_nontrivial = 10;
         }
